@@ -102,7 +102,7 @@ func (s *milterSrv) conns() int {
 // client that never ends its connections would make every row wait, so the
 // wait shrinks after the first rows that ran into it
 var (
-	closeWait   = 20 * time.Second
+	closeWait   = 6 * time.Second
 	unclosedCnt int
 )
 
@@ -263,6 +263,11 @@ func (s *milterSrv) handle(c net.Conn) {
 			binary.BigEndian.PutUint32(b[4:], 0x3f)
 			binary.BigEndian.PutUint32(b[8:], uint32(s.protoMask()))
 			if writePkt(c, 'O', b) != nil {
+				return
+			}
+			if s.in.Srv == "negver" {
+				// a version the client cannot speak: the milter hangs up
+				s.kill()
 				return
 			}
 		case 'D':
